@@ -101,3 +101,46 @@ def explicit_falsy_callers(repo, modname, qual, fn, param):
                 if val is not None and _is_falsy_const(val):
                     out.append((mn, cq, c, val.value))
     return out
+
+
+def _truth_atoms(test):
+    """expressions whose plain truthiness makes ``test`` true: operands of `and` chains, the test itself"""
+    if isinstance(test, ast.BoolOp) and isinstance(test.op, ast.And):
+        out = []
+        for v in test.values:
+            out += _truth_atoms(v)
+        return out
+    if isinstance(test, (ast.Subscript, ast.Attribute, ast.Name)):
+        return [test]
+    return []
+
+
+def value_guarded_stores(fn, record_names=None):
+    """Stores `record.column = <expr reading X['k']>` / `record['column'] = ...` that execute only when X['k'] itself is truthy: a falsy
+    new value (0, '', False) never reaches the record and the old one stays. Returns (store statement, guarding If, guarded expression text).
+    Only stores into attributes / items are considered: binding a local under such a guard is the usual "use it when present" idiom."""
+    parents = {}
+    for n in ast.walk(fn):
+        for c in ast.iter_child_nodes(n):
+            parents[c] = n
+    out = []
+    for n in ast.walk(fn):
+        if not isinstance(n, (ast.Assign, ast.AugAssign)):
+            continue
+        targets = n.targets if isinstance(n, ast.Assign) else [n.target]
+        if not any(isinstance(t, (ast.Attribute, ast.Subscript)) for t in targets):
+            continue
+        reads = set(ast.dump(x) for x in ast.walk(n.value) if isinstance(x, ast.Subscript) and isinstance(x.ctx, ast.Load))
+        if not reads:
+            continue
+        p = n
+        while p in parents:
+            pp = parents[p]
+            if isinstance(pp, ast.If) and any(p is s for s in pp.body):
+                for a in _truth_atoms(pp.test):
+                    if isinstance(a, ast.Subscript) and ast.dump(a) in reads:
+                        out.append((n, pp, ast.unparse(a)))
+            if isinstance(pp, (ast.FunctionDef, ast.Lambda)) and pp is not fn:
+                break
+            p = pp
+    return out
